@@ -409,11 +409,11 @@ func checkRetain[K any](h *hk[K], t Tree[K, uint64], ref *refMap[K], cyc, spec i
 			t.Insert(h.clone(k), v)
 		}
 	}
-	// no removed leaf stays reachable through a slot beyond a node's fan-out, except the one a node4/node16 that
-	// was full keeps in its last physical slot (at most one per inner node: bounded by the content)
+	// no removed leaf stays reachable through a slot beyond a node's fan-out: what the index keeps alive is exactly
+	// what it stores
 	pinned := func() bool {
 		st := h.state(t)
-		return vpReachableLeaves(st) <= uint64(st.size)+wfInner(st.root, 0)
+		return vpReachableLeaves(st) <= uint64(st.size)
 	}
 	vpAssert(pinned(), "C17 removed leaves stay reachable through unoccupied slots of the index (before the cycle)")
 	cycle() // warm-up
